@@ -101,6 +101,7 @@ class C25(Check):
         return self._kl
 
     # --------------------------------------------------------------------------------------------
+    @hist.retry_environmental
     def run_case(self, case, ctx):
         w = os.path.join(ctx.dir, "w")
         os.makedirs(os.path.join(w, "sub"))
